@@ -122,9 +122,25 @@ impl DirtyIds {
     pub fn collect(self) -> (r: Vec<Value>) ensures r@ == self.view() { unimplemented!() }
 }
 
+//@ idtype RowId
+pub type Pooled<T> = T;
+//@ item core-relations/src/table_spec.rs struct Row
+
 impl WrappedTable {
     pub uninterp spec fn len_spec(&self) -> nat;
     pub uninterp spec fn native_rebuild(&self) -> bool;
+    /// for the union-find table: the canonical id of v (column 1 of the row of a displaced id)
+    pub uninterp spec fn canon(&self, v: Value) -> Value;
+    // A-db: DisplacedTable::get_row (unit disp verifies expand / get_row_column, get_row itself uses a pool closure):
+    // a row [k, canonical id of k, timestamp] exists exactly for displaced ids; a missing row means k is canonical
+    #[verifier::external_body]
+    pub fn get_row(&self, key: &[Value]) -> (r: Option<Row>)
+        requires key@.len() == 1,
+        ensures match r {
+            Some(row) => row.vals@.len() == 3 && row.vals@[0] == key@[0] && row.vals@[1] == self.canon(key@[0]),
+            None => self.canon(key@[0]) == key@[0],
+        }
+    { unimplemented!() }
     #[verifier::external_body]
     pub fn len(&self) -> (r: usize) ensures r == self.len_spec() { unimplemented!() }
     #[verifier::external_body]
@@ -137,6 +153,8 @@ impl Database {
     /// the union-find (DisplacedTable) of this database
     pub uninterp spec fn uf(&self) -> TableId;
     pub uninterp spec fn table_len(&self, t: TableId) -> nat;
+    /// canonical id of v according to the union-find table
+    pub uninterp spec fn canon(&self, v: Value) -> Value;
     pub uninterp spec fn counter(&self, c: CounterId) -> nat;
     /// every row of the given tables mentions canonical ids only and keys are unique (per-pass result of apply_rebuild)
     pub uninterp spec fn canon_tables(&self, tables: Seq<TableId>) -> bool;
@@ -164,7 +182,10 @@ impl Database {
 
     #[verifier::external_body]
     pub fn get_table(&self, id: TableId) -> (r: &WrappedTable)
-        ensures r.len_spec() == self.table_len(id), id == self.uf() ==> r.native_rebuild()
+        ensures
+            r.len_spec() == self.table_len(id),
+            id == self.uf() ==> r.native_rebuild(),
+            id == self.uf() ==> forall|v: Value| #[trigger] r.canon(v) == self.canon(v),
     { unimplemented!() }
 
     #[verifier::external_body]
@@ -173,8 +194,9 @@ impl Database {
     { unimplemented!() }
 
     #[verifier::external_body]
-    pub fn inc_counter(&mut self, c: CounterId)
+    pub fn inc_counter(&mut self, c: CounterId) -> (r: usize)
         ensures
+            r == old(self).counter(c),
             final(self).counter(c) == old(self).counter(c) + 1,
             forall|d: CounterId| d != c ==> final(self).counter(d) == old(self).counter(d),
             final(self).uf() == old(self).uf(),
